@@ -7,7 +7,6 @@
 #![allow(clippy::type_repetition_in_bounds)]
 
 use std::cmp::Ordering;
-use std::f64::consts::PI;
 use std::fmt::Write;
 use std::ops::Mul;
 
@@ -125,11 +124,14 @@ where
     /// neighbouring cells ensures there are no intersections of when tiling space.
     ///
     fn check_intersection(&self) -> bool {
-        let periodic_range = match (self.cell.a() / self.cell.b(), self.cell.angle()) {
-            (p, a) if 0.5 < p && p < 2. && f64::abs(a - PI / 2.) < 0.2 => 1,
-            (p, a) if 0.3 < p && p < 3. && f64::abs(a - PI / 2.) < 0.5 => 2,
-            _ => 3,
-        };
+        // More shapes than fit in the area of the cell always overlap.
+        if self.cell.area() < self.shape.area() * self.total_shapes() as f64 {
+            return true;
+        }
+        // Images further than this many cells away are separated by more than twice the
+        // enclosing radius, so cannot intersect.
+        let height = self.cell.angle().sin() * f64::min(self.cell.a(), self.cell.b());
+        let periodic_range = (2. * self.shape.enclosing_radius() / height).ceil() as i64;
         // Compare within the current cell
         for (index, shape1) in self
             .cartesian_positions()
